@@ -119,7 +119,7 @@ def container_rule(ctx, p):
     for modname, outer, maker in ((f"{D}.to_array", "to_array", "ArrayMaker"), (f"{D}.to_grid", "to_grid", "GridMaker"), (f"{D}.to_vector_yx", "to_vector_yx", "VectorYXMaker")):
         w = nested(p, modname, outer)
         rets = wire.returns_of(w)
-        ok = len(rets) == 1 and norm_text(rets[0].value) == f"{maker}(*args, func=func, obj=obj, grid=grid, **kwargs).result"
+        ok = len(rets) == 1 and norm_text(wire.inline_locals(w, rets[0].value)) == f"{maker}(*args, func=func, obj=obj, grid=grid, **kwargs).result"   # directly or through a local holding the maker
         ctx.ob(rule, w.key, ok, where=w, node=rets[0] if rets else w.node, construct=norm_text(rets[0].value) if rets else "", message=f"the decorator must return {maker}(func=func, obj=obj, grid=grid, *args, **kwargs).result")
 
 
@@ -255,7 +255,7 @@ def transform_rule(ctx, p):
     ok = len(calls) == 2
     det = []
     for c in calls:
-        br = wire.branch_conds(w, c)
+        br = wire.path_conds(w, c)   # enclosing branches and earlier guard clauses alike
         a = [norm_text(x) for x in c.args[:2]]
         det.append((a, br))
         if br == [("kwargs.get('is_transformed')", False)]:
